@@ -279,6 +279,23 @@ func (r *run) evalPopulations() {
 				}
 				return nil
 			}
+			if r.onlyPart == "eval-repeat" {
+				all := append(phraseClauses(), cat...)
+				var cs []clause
+				for _, t := range r.onlyClauses {
+					for _, c := range all {
+						if c.Text == t {
+							cs = append(cs, c)
+							break
+						}
+					}
+				}
+				fs, _ := checkRepeat(cs, ctx)
+				for _, v := range fs {
+					r.col.add(finding{v.Oracle, v.What, v.Detail, nil})
+				}
+				return nil
+			}
 			if r.onlyClauses != nil {
 				var seq []int
 				for _, t := range r.onlyClauses {
@@ -319,6 +336,11 @@ func (r *run) evalPopulations() {
 					"query": renderQuery([]clause{cat[2], cat[23], cat[len(cat)-2]})})
 			}
 			r.record(name, pr, true, t0)
+			if spec.Name == "filters" && withSearch {
+				// the same parsed Query object evaluated three times (quoted multi-word search terms)
+				t0 := time.Now()
+				r.record(fmt.Sprintf("eval-repeat %s/%d %s", spec.Name, stageNo, stage), runRepeat(r.col, cat, ctx), true, t0)
+			}
 			if spec.Name == "filters" {
 				// names, logins and titles whose only capitals are non-ASCII x every query case
 				t0 := time.Now()
@@ -423,7 +445,7 @@ func Main(args []string) {
 		Assumptions: []string{
 			"the documented language is doc/queries.md plus the statement's sub-qualifier (metadata:key:value): qualifier:value, double quotes around values with spaces, colons or apostrophes, bare or quoted search terms, at most one sort, clauses separated by one space; double quotes delimit and an apostrophe inside them is an ordinary character (values can't, can't reproduce, it's:here, 'tis 'twas, 'quoted' must round-trip for every qualifier kind and evaluate against a bug titled can't reproduce, a label it's, an identity O'Neil, a metadata value it's:here); an unterminated double quote is malformed whatever it contains",
 			"where the documentation and the statement are silent the inputs avoid the question (label, metadata and search values never differ from population values only by case; search words are whole lower-case words with no near neighbours for the stemmer; the harness checks this and stops otherwise) or every outcome is accepted (single-quote-delimited values including an apostrophe outside double quotes such as title:can't, upper-case keywords, aliases, empty quoted values: never-panic only; several search terms: any set between all-of and any-of; fully tied bugs: any order)",
-			"title matching is case-insensitive like name and login matching (doc/queries.md: queries are case insensitive); case-insensitive means Unicode simple case mapping per letter (strings.ToLower on both sides): names, logins and titles whose only capitals are non-ASCII (Émile, Ørsted, Überlauf, Дмитрий, Ωμέγα) or that are stored in lower case (zähler) are queried as stored, all lower, all upper and with only the non-ASCII letter flipped; letters whose case mapping is not one-to-one (ß/ẞ, dotless i, final sigma) are left out", "sorted by creation / edit means by Lamport time, equal Lamport times by unix stamp (cache/bug_excerpt.go); default order is creation, descending",
+			"title matching is case-insensitive like name and login matching (doc/queries.md: queries are case insensitive); case-insensitive means Unicode simple case mapping per letter (strings.ToLower on both sides): names, logins and titles whose only capitals are non-ASCII (Émile, Ørsted, Überlauf, Дмитрий, Ωμέγα) or that are stored in lower case (zähler) are queried as stored, all lower, all upper and with only the non-ASCII letter flipped; letters whose case mapping is not one-to-one (ß/ẞ, dotless i, final sigma) are left out", "a query object handed to Query is the caller's: evaluating it must leave it as parsed and evaluating the same object again must give the same answer (checked for quoted multi-word search terms, three evaluations each; the phrase result itself is not compared with the reference)", "a search word may be carried by more than ten bugs (ubiquitous: all 12 bugs of the filters population, frequent: 11): the result must still be every satisfying bug", "sorted by creation / edit means by Lamport time, equal Lamport times by unix stamp (cache/bug_excerpt.go); default order is creation, descending",
 			"the reference reads bugs and identities back from git at the entity level (bug.ReadAll), not from excerpts; interpreting operations into snapshots is C10's subject and trusted here",
 			"free-text search right after a pull through the live cache is not evaluated (index freshness after a merge is C11's subject); the same population is evaluated with search after reopening",
 			"bounded: populations, stages, catalogue and clause count as listed under parts",
@@ -507,7 +529,7 @@ func (r *run) replay(path string) int {
 			}
 			r.col.add(finding{v.Oracle, sig, v.Detail, nil})
 		}
-	case "eval", "eval-strings", "eval-case":
+	case "eval", "eval-strings", "eval-case", "eval-repeat":
 		r.onlyPart = str("part")
 		r.onlyPop, r.onlyStage, r.onlyClauses, r.onlyInput = str("population"), str("stage"), list, str("input")
 		r.evalPopulations()
